@@ -7,7 +7,7 @@ from symv import refsym as R
 
 META = {
     "level": "exploration",
-    "level_text": "Exhaustive enumeration (thorough tier) of the stated finite boxes: every group element / pair / triple against RefSym, and every (charge-subset, dualness, total charge) sector-enumeration case for <=4 indices (<=3 for 4-label pools) through gen_valid_sectors, from_fill_fn and random, for static and generic classes, abelian and fermionic. Quick tier samples the same space. Exploration, exhaustive inside the bounds; nothing is claimed outside them. Later additions: direction flags as 1 / numpy bools before any proper bool call in every fresh worker, abandoned enumerations and failing fill functions as history, enumerations with 10^5-10^6 candidates (meet-in-the-middle oracle), legs 8x wider than the others, unreachable total charges. Round 9: the same BlockIndex objects enumerated under 2-4 symmetries in a row (shipped and user-defined), through gen_valid_sectors / from_fill_fn / random.",
+    "level_text": "Exhaustive enumeration (thorough tier) of the stated finite boxes: every group element / pair / triple against RefSym, and every (charge-subset, dualness, total charge) sector-enumeration case for <=4 indices (<=3 for 4-label pools) through gen_valid_sectors, from_fill_fn and random, for static and generic classes, abelian and fermionic. Quick tier samples the same space. Exploration, exhaustive inside the bounds; nothing is claimed outside them. Later additions: direction flags as 1 / numpy bools before any proper bool call in every fresh worker, abandoned enumerations and failing fill functions as history, enumerations with 10^5-10^6 candidates (meet-in-the-middle oracle), legs 8x wider than the others, unreachable total charges. Round 9: the same BlockIndex objects enumerated under 2-4 symmetries in a row (shipped and user-defined), through gen_valid_sectors / from_fill_fn / random. Round 10: is_valid_sector on random tuples and get_sparsity judged against the enumeration oracle.",
     "technique": "runtime monitoring: exhaustive bounded enumeration with reference-model oracle (RefSym brute force)",
     "rule": (
         "group axioms: every tuple of charges of Z2/Z4/Z2Z2 (full group, up to 3-fold products) and of U1 on [-6,6], "
